@@ -12,19 +12,24 @@ CONSTANTS Structs,   \* sequence of [V, sz, ord, pots, cliques (maximal, for pat
           Calls,     \* per structure: the call alphabet, a set of records
           Depth      \* length of the call histories to enumerate
 
-VARIABLES sid, joint, cached, cached0, hist
-vars == <<sid, joint, cached, cached0, hist>>
+VARIABLES sid, joint, cached, cached0, hist, pset
+vars == <<sid, joint, cached, cached0, hist, pset>>
 S == Structs[sid]
 
 RECURSIVE MulSeq(_, _)
 MulSeq(ts, sz) == IF ts = <<>> THEN One(sz) ELSE Mul(Head(ts), MulSeq(Tail(ts), sz), sz)
-JointOf(s) == LET st == Structs[s]
-              IN  Mul(MulSeq([k \in DOMAIN st.pots |-> FromFlat(st.pots[k].at, st.sz, st.pots[k].w)], st.sz),
-                      ConstTbl(st.V, st.sz, 1), st.sz)
+\* the object can be given other parameters during its life (the estimators do: model.potentials = theta; model.marginals = mu;
+\* model.total = ...): parameter set 2 is the same structure with every weight vector reversed
+RevSeq(w) == [i \in DOMAIN w |-> w[Len(w) + 1 - i]]
+WOf(st, k, p) == IF p = 1 THEN st.pots[k].w ELSE RevSeq(st.pots[k].w)
+JointOfP(s, p) == LET st == Structs[s]
+                  IN  Mul(MulSeq([k \in DOMAIN st.pots |-> FromFlat(st.pots[k].at, st.sz, WOf(st, k, p))], st.sz),
+                          ConstTbl(st.V, st.sz, 1), st.sz)
+JointOf(s) == JointOfP(s, 1)
 
 Init == \E s \in DOMAIN Structs : \E c \in BOOLEAN :
           /\ sid = s /\ joint = JointOf(s) /\ Total(joint) > 0
-          /\ cached = c /\ cached0 = c /\ hist = <<>>
+          /\ cached = c /\ cached0 = c /\ hist = <<>> /\ pset = 1
 
 \* the one and only semantics of a marginal query: marginal of the joint, in the REQUESTED order
 Answer(seq) == Flat(Marg(joint, SeqRange(seq), S.sz), seq, S.sz)
@@ -60,9 +65,14 @@ Do(c) ==
                   [] c.k = "datavector" -> [path |-> "datavector", a |-> Answer(S.ord)]
                   [] c.k = "saveload" -> [path |-> "saveload", a |-> <<>>]
                   [] c.k = "synth" -> [path |-> "synth", a |-> <<>>]      \* generating records is a read-only use of the model
-     IN  hist' = Append(hist, [call |-> c, ans |-> ans, cached |-> cached])
-  /\ cached' = (cached \/ c.k = "many")           \* l.72: bulk queries populate model.marginals
-  /\ UNCHANGED <<sid, joint, cached0>>
+                  [] c.k = "reparam" -> [path |-> "reparam", a |-> <<>>]
+         np == IF c.k = "reparam" THEN 3 - pset ELSE pset
+         nj == IF c.k = "reparam" THEN JointOfP(sid, np) ELSE joint
+     IN  /\ hist' = Append(hist, [call |-> c, ans |-> ans, cached |-> cached, pset |-> np, Z |-> Total(nj)])
+         /\ pset' = np /\ joint' = nj
+         /\ (c.k = "reparam" => Total(nj) > 0)
+  /\ cached' = (cached \/ c.k = "many")           \* l.72: bulk queries populate model.marginals (re-derived on reparam if present)
+  /\ UNCHANGED <<sid, cached0>>
 
 Next == \E c \in Calls[sid] : Do(c)
 Spec == Init /\ [][Next]_vars
@@ -70,8 +80,9 @@ Spec == Init /\ [][Next]_vars
 Emit == Len(hist) = Depth => PrintT(<<"EMIT", ToJson([sid |-> sid, cached0 |-> cached0, Z |-> Total(joint), hist |-> hist])>>)
 
 \* answers are a function of the call only: the same call gives the same answer anywhere in any history
-HistoryFree == \A i, j \in DOMAIN hist : hist[i].call = hist[j].call => hist[i].ans.a = hist[j].ans.a
+\* ... and of the parameters in force when it is made (hist[i].pset is the set in force AFTER step i; a query does not change it)
+HistoryFree == \A i, j \in DOMAIN hist : (hist[i].call = hist[j].call /\ hist[i].pset = hist[j].pset) => hist[i].ans.a = hist[j].ans.a
 \* every marginal answer carries the whole mass
 SumsToZ == \A i \in DOMAIN hist : hist[i].call.k = "project" =>
-             SumFn(hist[i].ans.a, DOMAIN hist[i].ans.a) = Total(joint)
+             SumFn(hist[i].ans.a, DOMAIN hist[i].ans.a) = hist[i].Z
 =============================================================================
